@@ -478,7 +478,7 @@ def opTd (d : TdInst) (op : String) (a : List Nat) (raw : List String) : Out :=
     | _ => .bad
   | _ => .bad
 
-def step (s : DState) (toks : List String) : DState × String :=
+def step1 (s : DState) (toks : List String) : DState × String :=
   match toks with
   | "case" :: _ => ({}, " ".intercalate toks)
   | ["hasher", mul, add, sh, seed] =>
@@ -524,5 +524,14 @@ def step (s : DState) (toks : List String) : DState × String :=
         | .panic => ({ s0 with insts := s0.insts.insert id .poisoned }, "panic")
         | .bad => ({ s0 with insts := s0.insts.insert id inst }, "bad-op")
   | _ => (s, "bad-op")
+
+/-- `both <op> <i> <j> args…` runs `<op>` on `i`, then on `j`, and answers `a | b`. -/
+def step (s : DState) (toks : List String) : DState × String :=
+  match toks with
+  | "both" :: op :: i :: j :: args =>
+    let (s, a) := step1 s (op :: i :: args)
+    let (s, b) := step1 s (op :: j :: args)
+    (s, a ++ " | " ++ b)
+  | _ => step1 s toks
 
 end Pds.Driver
